@@ -82,6 +82,21 @@ func PadSkippableEvent(f protoreflect.FieldDescriptor) protoreflect.Message {
 	return ev
 }
 
+// PadFailedActivityEvent: an ActivityTaskFailed event whose failure message is the marker "MSG~" (the harness turns
+// the marker into invalid UTF-8 in the encoded batch afterwards: a batch from an older server that needs the repair).
+func PadFailedActivityEvent(f protoreflect.FieldDescriptor) protoreflect.Message {
+	if f.Message().FullName() != HistoryEventName {
+		return nil
+	}
+	ev := NewMessage(f.Message())
+	ev.Set(f.Message().Fields().ByName("event_type"), protoreflect.ValueOfEnum(12)) // ACTIVITY_TASK_FAILED
+	ev.Set(f.Message().Fields().ByName("event_id"), protoreflect.ValueOfInt64(4))
+	attrs := ev.Mutable(f.Message().Fields().ByName("activity_task_failed_event_attributes")).Message()
+	fail := attrs.Mutable(attrs.Descriptor().Fields().ByName("failure")).Message()
+	fail.Set(fail.Descriptor().Fields().ByName("message"), protoreflect.ValueOfString("MSG~"))
+	return ev
+}
+
 // PathEventType returns the name of the event type a path goes through ("" if none).
 func PathEventType(p Path) string {
 	et := ""
